@@ -650,6 +650,36 @@ func runC09(ws []*World, seed uint64, runs, shard, nshard int, res *Result) {
 		}
 		sweep(nil)
 		res.Stats["sweep_max_len:"+fmt.Sprint(L)]++
+		// Single-substitution sweep: a few sentences, every position replaced
+		// by every terminal in turn (and dropped). With a large alphabet the
+		// length-bounded sweep above stops at two tokens; this one reaches
+		// every state a sentence passes through with every terminal.
+		if w.G0.Productive() {
+			left := 2400
+			for k := 0; k < 6 && left > 0; k++ {
+				ids, _ := w.G0.Derive(r, 3+r.Intn(6), 12+r.Intn(40))
+				base := w.termNames(ids)
+				for pos := 0; pos < len(base) && left > 0; pos++ {
+					for ti := -1; ti < len(terms) && left > 0; ti++ {
+						var toks []string
+						var fault string
+						if ti < 0 {
+							toks = append(append(toks, base[:pos]...), base[pos+1:]...)
+							fault = fmt.Sprintf("drop@%d", pos)
+						} else if terms[ti] == base[pos] {
+							continue
+						} else {
+							toks = append(toks, base...)
+							toks[pos] = terms[ti]
+							fault = fmt.Sprintf("subst@%d=%s", pos, terms[ti])
+						}
+						w.oneC09(&C09Run{Pkg: w.E.Pkg, Lexer: "stub", Tokens: toks, Source: "substitution-sweep", Faults: []string{fault}}, res, false)
+						res.Stats["substitution_sweep_runs"]++
+						left--
+					}
+				}
+			}
+		}
 		// Seeded streams with faults.
 		for i := 0; i < runs; i++ {
 			rr := core.NewRand(core.Derive(seed, "c09-"+w.E.Pkg, i+1))
